@@ -3,6 +3,8 @@
             curves of the retained key-share private keys (KeyShare.mkShape ecdhe extra mlkem mlkem_ecdhe), the server flight read from the server's plaintext messages (EncryptedExtensions
             ALPN = the protocol the server reports), and both observed ConnectionStates: the model's client_run
             must complete with exactly the client's values, and server_state must give exactly the server's.
+   CResume12 : a TLS <= 1.2 resumption (second connection of a pair): the cached session's version / suite / EMS (read from
+            the first connection), the abbreviated ServerHello, both observed states, against client_resume12.
    CName  : hostnameInSNI(Config.ServerName), uconn.Extensions as sni_items (names already passed through
             hostnameInSNI by harness/extcoq's verbatim copy, so host = identity here), and the two reported
             server names: the model of the REPAIRED client (fixes/C11-sni-reported-name.diff) and of the server. *)
@@ -14,6 +16,7 @@ Record obs_state := mkObsState { o_vers : N; o_suite : N; o_group : N; o_alpn : 
 
 Inductive case :=
 | CState (fixed : bool) (v : client_view) (ks : KeyShare.kshape) (fl : flight) (c s : obs_state)
+| CResume12 (v : client_view) (sess_vers sess_suite : N) (sess_ems h_ems : bool) (h : hello_msg) (c s : obs_state)
 | CName (cfg : bytes) (exts : list sni_item) (client server : bytes).
 
 Definition idb (b : bytes) : bytes := b.
@@ -26,6 +29,17 @@ Definition check (c : case) : bool :=
           (cs_vers st =? o_vers c) && (cs_suite st =? o_suite c) && (cs_group st =? o_group c)
           && bytes_eqb (cs_alpn st) (o_alpn c) && Bool.eqb (cs_psk st) (o_resumed c)
           && (let ss := server_state fl in
+              (ss_vers ss =? o_vers s) && (ss_suite ss =? o_suite s) && (ss_group ss =? o_group s)
+              && bytes_eqb (ss_alpn ss) (o_alpn s) && Bool.eqb (ss_resumed ss) (o_resumed s))
+      | Abort _ => false
+      end
+  | CResume12 v sv ssu sems hems h c s =>
+      let vers := if h_sv h =? 0 then h_vers h else h_sv h in
+      match client_resume12 env_fixed v (mkSess12 sv ssu sems) vers h hems true with
+      | Complete st =>
+          (cs_vers st =? o_vers c) && (cs_suite st =? o_suite c) && (cs_group st =? o_group c)
+          && bytes_eqb (cs_alpn st) (o_alpn c) && Bool.eqb (cs_psk st) (o_resumed c)
+          && (let ss := server_state_resumed12 vers h in
               (ss_vers ss =? o_vers s) && (ss_suite ss =? o_suite s) && (ss_group ss =? o_group s)
               && bytes_eqb (ss_alpn ss) (o_alpn s) && Bool.eqb (ss_resumed ss) (o_resumed s))
       | Abort _ => false
